@@ -129,6 +129,51 @@ def install(native=False):
         STUBS.append("textwrap.dedent/indent, inspect.cleandoc (incl. names bound in modelx.core.formula/errors) run under NoTracing: "
                      "CrossHair's re interception strips all indentation even from concrete str")
 
+    # 7. temporary directories: CrossHair models `random` as a nondeterministic source (tempfile names get nan)
+    if not native:
+        import tempfile
+        import shutil as _shutil
+        _counter = [0]
+        _real_rmtree = _shutil.rmtree
+        _real_makedirs = os.makedirs
+
+        def _newdir(suffix=None, prefix=None, dir=None):
+            with notrace():
+                _counter[0] += 1
+                base = dir or os.environ.get("VERIF_SCRATCH") or tempfile.gettempdir()
+                d = os.path.join(base, "%s%d_%d%s" % (prefix or "vtmp", os.getpid(), _counter[0], suffix or ""))
+                _real_makedirs(d, exist_ok=True)
+                return d
+
+        class _TD:
+            def __init__(self, suffix=None, prefix=None, dir=None, ignore_cleanup_errors=False, **kw):
+                self.name = _newdir(suffix, prefix, dir)
+
+            def __enter__(self):
+                return self.name
+
+            def __exit__(self, *a):
+                self.cleanup()
+
+            def cleanup(self):
+                with notrace():
+                    _real_rmtree(self.name, ignore_errors=True)
+        tempfile.TemporaryDirectory = _TD
+        tempfile.mkdtemp = _newdir
+        STUBS.append("tempfile.TemporaryDirectory/mkdtemp -> deterministic counter-named directory under the check's scratch root "
+                     "(CrossHair replaces `random`, tempfile's name generator breaks)")
+
+    # 9. zipfile stamps members with time.time() (nondeterministic under CrossHair, 1970 is refused by the zip format):
+    #    the archive primitives run untraced; their arguments (paths, text produced by modelx) are concrete.
+    if not native:
+        import zipfile
+        for n in ("writestr", "write", "close", "open", "read", "namelist", "infolist", "getinfo", "extract", "extractall", "mkdir"):
+            f = getattr(zipfile.ZipFile, n, None)
+            if f is not None and not getattr(f, "__verif_untraced__", False):
+                setattr(zipfile.ZipFile, n, _untraced(f))
+        zipfile.ZipInfo.from_file = classmethod(_untraced(zipfile.ZipInfo.from_file.__func__))
+        STUBS.append("zipfile.ZipFile primitives run under NoTracing (they read the clock; member names and data are concrete)")
+
     # 3. clock
     if hasattr(ms, "_trace_time"):
         ms._trace_time = lambda: 0
@@ -165,3 +210,39 @@ def memo_formulas():
     init.__verif_memo__ = True
     mf.Formula.__init__ = init
     STUBS.append("Formula(text, name) memoised per process for harness-generated model text (not in C04/C20)")
+
+
+def real_regex():
+    """Stub 10: CrossHair's own regex engine (used for symbolic str) mis-executes some patterns even on concrete strings
+    (MULTILINE margins in textwrap.dedent, modelx's serializer section scanner).  No harness needs symbolic regex
+    matching, so every re.Pattern method is routed to CPython's engine on realised arguments."""
+    import re
+    import crosshair.core_and_libs  # noqa
+    from crosshair.core import _PATCH_REGISTRATIONS, with_realized_args
+    for n in ("search", "match", "fullmatch", "split", "findall", "finditer", "sub", "subn", "prefixmatch"):
+        f = getattr(re.Pattern, n, None)
+        if f is not None:
+            _PATCH_REGISTRATIONS[f] = with_realized_args(f)
+    _PATCH_REGISTRATIONS.pop(re._compile, None)
+    # Stub 11: CrossHair answers isinstance(obj, T) by issubclass(type(obj), T), which ignores __instancecheck__
+    # (ast.Str / ast.Num in modelx's serializer: a docstring node was not recognised under tracing).
+    from crosshair.util import CrossHairValue
+    from crosshair.tracers import NoTracing
+    orig_isinstance = _PATCH_REGISTRATIONS.get(isinstance)
+
+    def _isinstance(obj, types):
+        with NoTracing():
+            if not isinstance(obj, CrossHairValue):
+                return isinstance(obj, types)          # concrete object: CPython is authoritative
+        return orig_isinstance(obj, types)
+    if orig_isinstance is not None:
+        _PATCH_REGISTRATIONS[isinstance] = _isinstance
+    # Stub 12: no short-circuiting.  CrossHair may replace a call to any function that carries a contract (its own patches of
+    # repr(), time.*, random.* among them) by an arbitrary value of the return type ("proxyreturn").  That over-approximates
+    # the real code (repr() of a str became an arbitrary string inside modelx's serializer); every call runs its real body.
+    import crosshair.core as _cc
+    _cc.ShortCircuitingContext.make_interceptor = lambda self, original: original
+    STUBS.append("CrossHair short-circuiting of contract-bearing functions disabled: repr(), time.*, random.* execute their real bodies")
+    STUBS.append("isinstance() on concrete objects answered by CPython (CrossHair's replacement ignores __instancecheck__, e.g. ast.Str)")
+    STUBS.append("re.Pattern.* run CPython's regex engine on realised arguments (CrossHair's symbolic regex engine mis-executes "
+                 "some patterns on concrete strings)")
